@@ -6,6 +6,8 @@ package main
 import (
 	"encoding/json"
 	"fmt"
+	"regexp"
+	"sort"
 	"strings"
 
 	"verif/mc/authcells"
@@ -42,10 +44,50 @@ func run1(r *harness.Run, c cell) (libOK bool, ref refauth.Result, err error) {
 	return verdict == nil, ref, nil
 }
 
+var userRe = regexp.MustCompile(`@[a-z0-9_]+:[a-z0-9.]+`)
+
+func pseudoAgrees(r *harness.Run, c cell, plain bool) error {
+	set := map[string]bool{}
+	add := func(s string) {
+		for _, u := range userRe.FindAllString(s, -1) {
+			set[u] = true
+		}
+	}
+	for _, se := range c.Sc.State {
+		add(se.Sender)
+		add(se.StateKey)
+		add(se.Content)
+	}
+	add(c.Sc.Event.Sender)
+	add(c.Sc.Event.Content)
+	if c.Sc.Event.StateKey != nil {
+		add(*c.Sc.Event.StateKey)
+	}
+	var users []string
+	for u := range set {
+		users = append(users, u)
+	}
+	sort.Strings(users)
+	enc, q := c.Sc.PseudoEncode(users)
+	r.Eval()
+	var verdict, berr error
+	if p, msg := harness.Try(func() { verdict, berr = enc.RunWith(q) }); p {
+		return fmt.Errorf("Allowed panics on the pseudo-ID encoding: %s", msg)
+	}
+	if berr != nil {
+		return nil // the encoded scenario cannot be built (an identifier the event format refuses): nothing to compare
+	}
+	r.Count("pseudo_id_encodings_compared", 1)
+	if (verdict == nil) != plain {
+		return fmt.Errorf("room version %s, %s %v: allowed=%v when sender IDs are user IDs but Allowed = %v when they are opaque sender IDs mapped to the same users", c.Sc.Version, c.Class, c.Labels, plain, verdict)
+	}
+	return nil
+}
+
 func main() { harness.Main("C07", "model_checking", run) }
 
 func run(r *harness.Run) {
-	r.Rule("the abstract rule space, fully enumerated per event class and pruned only by irrelevance: member-self (new membership x federation/server x sender-is-creator x 11 power-level configurations x previous membership x 7 join rules x restricted-join authoriser states x prev_events shapes), member-other (new membership x federation x creator x power levels x sender's and target's previous membership), third-party invites (mxid x token/invite-event x public keys x signature x federation x memberships), create (prev_events x state key x room ID x room_version field x creator field x additional_creators), power_levels (4 current contents x 45 proposed contents x sender/creator x membership), all other events (11 type/state-key shapes x federation x creator x membership x 10 level configurations x create present/absent/other room x redaction targets x create.room_version), in every room version (quick: 12 representative versions on the large classes, all 16 on the small ones); each cell becomes real events and Allowed is compared with refauth. Non-trivial (decisive) = distinct cell whose verdict flips when exactly one coordinate is changed.")
+	r.Rule("the abstract rule space, fully enumerated per event class and pruned only by irrelevance: member-self (new membership x federation/server x sender-is-creator x 11 power-level configurations x previous membership x 7 join rules x restricted-join authoriser states x prev_events shapes), member-other (new membership x federation x creator x power levels x sender's and target's previous membership), third-party invites (mxid x token/invite-event x public keys x signature x federation x memberships), create (prev_events x state key x room ID x room_version field x creator field x additional_creators), power_levels (4 current contents x 45 proposed contents x sender/creator x membership), all other events (11 type/state-key shapes x federation x creator x membership x 10 level configurations x create present/absent/other room x redaction targets x create.room_version), in every room version (quick: 12 representative versions on the large classes, all 16 on the small ones); each cell becomes real events and Allowed is compared with refauth; in the pseudo-ID room version every cell (bar third-party invites) is also run with opaque sender IDs mapped back to the same users and must get the same verdict. Non-trivial (decisive) = distinct cell whose verdict flips when exactly one coordinate is changed.")
 	r.Assume("refauth transcribes the specification's rules plus the departures D1-D16 of DESIGN.md", "the auth-event selection rule is not evaluated by Allowed (D1)")
 	r.OnReplay("cell", func(raw json.RawMessage) error {
 		var c cell
@@ -61,7 +103,7 @@ func run(r *harness.Run) {
 	all := refversions.All()
 	big := all
 	if r.Quick() {
-		big = []string{"1", "3", "5", "6", "7", "8", "9", "10", "11", "12", "org.matrix.msc3787", "org.matrix.msc3667"}
+		big = []string{"1", "3", "5", "6", "7", "8", "9", "10", "11", "12", "org.matrix.msc3787", "org.matrix.msc3667", "org.matrix.msc4014"}
 	}
 	type job struct {
 		ver string
@@ -89,6 +131,17 @@ func run(r *harness.Run) {
 				}
 				r.Violation(fmt.Sprintf("cell:%s/%s:%s:%s", c.Class, what, c.Sc.Version, c.Key()), err.Error(), "cell", c)
 				continue
+			}
+			if j.ver == "org.matrix.msc4014" && j.cls != "3pid" {
+				// the pseudo-ID room version once more with sender IDs that are not user IDs (every user ID of the cell replaced
+				// by an opaque sender ID, the caller's resolution mapping it back): the rules are stated over users, so the
+				// verdict must not depend on the encoding. Not compared: third-party invites (the substitution would have to
+				// re-sign the signed block) and the rule about state keys that begin with '@' (it is about the literal text).
+				if sk := c.Sc.Event.StateKey; !(sk != nil && strings.HasPrefix(*sk, "@") && c.Sc.Event.Type != "m.room.member") {
+					if e := pseudoAgrees(r, c, ok); e != nil {
+						r.Violation(fmt.Sprintf("cell-pseudo:%s:%s:%s", c.Class, c.Sc.Version, c.Key()), e.Error(), "cell", c)
+					}
+				}
 			}
 			verdicts[c.Key()] = ok
 			byClass[c.Class] = append(byClass[c.Class], c)
